@@ -350,6 +350,56 @@ def _cases(draw):
     }
 
 
+# ---- sensitive columns on very different scales ---------------------------------------------------------------
+
+
+def check_scales(case):
+    """Sensitive columns whose scales differ by many orders of magnitude (a 0/1 flag next to an income in cents):
+    rescaling a column changes neither the span nor the projection, so every output column must be uncorrelated
+    (scale-free: |corr| <= 1e-6) with every sensitive column, and equal the residual of a column-normalised
+    least-squares fit."""
+    from fairlearn.preprocessing import CorrelationRemover
+
+    base = np.asarray(case["S"], dtype=float).T  # n x ns, well conditioned after centring (checked below)
+    Z = np.asarray(case["Z"], dtype=float).T
+    fac = np.asarray(case["factors"], dtype=float)
+    S = base * fac
+    n, ns = S.shape
+    Sc0 = base - base.mean(axis=0)
+    if float(np.min(np.linalg.norm(Sc0, axis=0))) < 1e-9:
+        raise Skip("constant sensitive column (covered by the main sub-check)")
+    sv = np.linalg.svd(Sc0 / np.linalg.norm(Sc0, axis=0), compute_uv=False)
+    if sv[-1] / sv[0] < 1e-2:
+        raise Skip("normalised sensitive block not well conditioned")
+    X = np.column_stack([S, Z])
+    out = np.asarray(CorrelationRemover(sensitive_feature_ids=list(range(ns)), alpha=1.0).fit_transform(X), dtype=float)
+    _need(out.shape == Z.shape, f"output shape {out.shape}, expected {Z.shape}")
+    Q, _ = np.linalg.qr(Sc0 / np.linalg.norm(Sc0, axis=0))
+    ref = Z - Q @ (Q.T @ (Z - Z.mean(axis=0)))
+    zs = max(1.0, float(np.max(np.abs(Z))))
+    _need(bool(np.max(np.abs(out - ref)) <= 1e-6 * zs),
+          f"alpha=1 output is not the least-squares residual on the centred sensitive columns (column scales {fac.tolist()}): max deviation {float(np.max(np.abs(out - ref)))!r}")
+    for j in range(ns):
+        sc = Sc0[:, j] / np.linalg.norm(Sc0[:, j])
+        for k in range(out.shape[1]):
+            oc = out[:, k] - out[:, k].mean()
+            no_ = float(np.linalg.norm(oc))
+            if no_ > 1e-4 * zs:  # correlation of an (almost) constant output column is round-off noise
+                corr = float(sc @ oc) / no_
+                _need(abs(corr) <= 1e-6, f"output column {k} keeps correlation {corr!r} with sensitive column {j} (column scales {fac.tolist()})")
+    return ["nt", "scale_ratio>=1e6"] if max(fac) / min(fac) >= 1e6 else ["nt"]
+
+
+@st.composite
+def _scale_cases(draw):
+    n = draw(st.integers(5, 12))
+    ns = draw(st.integers(2, 3))
+    no = draw(st.integers(1, 3))
+    col = lambda: draw(st.lists(st.integers(-5, 9), min_size=n, max_size=n))  # noqa: E731
+    return {"S": [col() for _ in range(ns)], "Z": [col() for _ in range(no)],
+            "factors": [draw(st.sampled_from([1.0, 1.0, 1e-4, 1e4, 1e3, 100.0])) for _ in range(ns)]}
+
+
 # ---- finding D15: centring round-off above numpy.lstsq's default cutoff ---------------------------------
 #
 # When the centred sensitive block is exactly rank deficient in real arithmetic (n <= number of
@@ -389,4 +439,6 @@ SUBS = [
     Sub("remover", check, strategy=_cases, quick=1500, thorough=40000, shards=16,
         floors={"nt": 0.3, "ns>=2": 0.453, "collinear": 0.05, "constant_col": 0.05, "rank_deficient": 0.1,
                 "full_rank": 0.291, "dataframe": 0.153, "alpha_interior": 0.28, "alpha_end": 0.1, "interleaved": 0.191}),
+    Sub("column_scales", check_scales, strategy=_scale_cases, quick=300, thorough=6000, shards=8, max_skip_frac=0.6,
+        floors={"scale_ratio>=1e6": 0.05}),
 ]
